@@ -6,9 +6,10 @@
       are the same after ANY history of interface calls.
     - [winside]: every device write lies between byte 512 and the end of the volume.
 
-    The second needs the first: the follower yields only entries holding a link or an end mark; if the entries behind
-    the last cluster are free (as every formatter leaves them) they can never be members of a chain, whatever a
-    directory entry or a stale handle names as start cluster. *)
+    The follower refuses every cluster number behind the last cluster the volume has (D38: it used to accept whatever
+    the sector-rounded FAT could address — the proof of [winside] needed the hypothesis that those entries are free, and a
+    damaged image where they are not made pyfatfs read and write behind the end of the volume), the allocator never hands
+    one out, so whatever a directory entry or a stale handle names as start cluster, no write leaves the volume. *)
 From Coq Require Import ZArith List Bool Lia ZifyBool Relations.
 From PyFatV Require Import Base.Bytes Base.Sweep Base.PyEnv Gen.Pure Model.Codec Model.Dir Model.FS Proofs.FatTable Proofs.Device Proofs.DirCodec Proofs.DirState Proofs.Chains Proofs.Session Proofs.FatState Proofs.HdrState Proofs.Identity Proofs.Geometry Proofs.FatBound Proofs.BootSafe.
 Import ListNotations.
@@ -77,12 +78,6 @@ Qed.
 
 (** the entries behind the last cluster are free *)
 Definition tf (M:Z) (fat:list Z) : Prop := forall i, M < i -> nthZ fat i = 0.
-Lemma tf_member t dm M fat fuel i c : vt t -> tf M fat -> In c (fst (chain_go fuel t dm fat i)) -> 2 <= c <= M /\ was_ok t dm (nthZ fat c).
-Proof.
-  intros Hv Ht H. pose proof (chain_go_used _ _ _ _ _ _ H) as Hu. pose proof (chain_go_in_fat _ _ _ _ _ _ H) as [_ Hm].
-  destruct (vt_consts t Hv) as (Hmin & _). split; [|right; exact Hu]. split; [lia|].
-  destruct (Z_le_gt_dec c M) as [Hl|Hg]; [exact Hl|]. exfalso. apply (used_nonzero t dm _ Hv Hu). apply Ht. lia.
-Qed.
 Lemma tf_chg t dm M f f' : tf M f -> chg t dm M f f' -> tf M f'.
 Proof.
   intros Ht [_ H] i Hi. destruct (Z.eq_dec (nthZ f' i) (nthZ f i)) as [E|E]; [rewrite E; apply Ht; exact Hi|].
@@ -102,7 +97,7 @@ Definition geo (s:st) : Prop :=
   root_addr s + root_dir_sectors (s_p s) * bps s <= first_data_sector (s_p s) * bps s /\
   first_data_sector (s_p s) <= total_sectors s.
 Definition pre (s:st) : Prop :=
-  vt (ft s) /\ geo s /\ tf (max_cluster s) (s_fat s) /\ lenZ (pack_fat (ft s) (s_fat s) (s_hi s)) <= fat_bytes s.
+  vt (ft s) /\ geo s /\ lenZ (pack_fat (ft s) (s_fat s) (s_hi s)) <= fat_bytes s.
 Definition J (s s':st) : Prop :=
   s_h s' = s_h s /\ s_p s' = s_p s /\ s_hi s' = s_hi s /\ s_ro s' = s_ro s /\ s_dsize s' = s_dsize s /\
   chg (ft s) (dmax s) (max_cluster s) (s_fat s) (s_fat s') /\
@@ -128,10 +123,10 @@ Proof.
 Qed.
 Lemma pre_J a b : pre a -> J a b -> pre b.
 Proof.
-  intros (Hv & Hg & Ht & Hl) (A1 & A2 & A3 & A4 & A5 & A6 & _).
+  intros (Hv & Hg & Hl) (A1 & A2 & A3 & A4 & A5 & A6 & _).
   destruct (frame_eqs a b A1 A2) as (E1 & E2 & E3 & E4 & E5 & E6 & E7 & E8 & E9 & E10).
-  unfold pre, geo. rewrite E1, E3, E5, E6, E7, E8, E9, A1, A2, A3. unfold total_sectors. rewrite A1. fold (total_sectors a).
-  split; [exact Hv|]. split; [exact Hg|]. split; [eapply tf_chg; eassumption|].
+  unfold pre, geo. rewrite E1, E5, E6, E7, E8, E9, A1, A2, A3. unfold total_sectors. rewrite A1. fold (total_sectors a).
+  split; [exact Hv|]. split; [exact Hg|].
   unfold lenZ. rewrite (pack_fat_length (ft a) (s_fat b) (s_fat a) (s_hi a)); [exact Hl|]. destruct A6 as [L _]. unfold lenZ in L. lia.
 Qed.
 
@@ -226,8 +221,10 @@ Proof.
 Qed.
 Lemma chain_members s c l ok : pre s -> chain s c = (l, ok) -> Forall (fun x => 2 <= x <= max_cluster s /\ was_ok (ft s) (dmax s) (nthZ (s_fat s) x)) l.
 Proof.
-  intros (Hv & _ & Ht & _) H. apply Forall_forall. intros x Hx. unfold chain in H.
-  apply (tf_member (ft s) (dmax s) (max_cluster s) (s_fat s) (length (s_fat s)) c x Hv Ht). rewrite H. exact Hx.
+  intros (Hv & _) H. pose proof (chain_members_bounded _ _ _ _ H) as Hb. rewrite Forall_forall in Hb. apply Forall_forall. intros x Hx.
+  destruct (Hb x Hx) as [Hr Hl]. destruct (vt_consts _ Hv) as (Hmin & _). split; [lia|]. right.
+  unfold chain in H. pose proof (chain_go_used (length (s_fat s)) (ft s) (dmax s) (vfat s) c x) as Hu. rewrite H in Hu. specialize (Hu Hx).
+  unfold vfat in Hu. rewrite nthZ_firstn in Hu by lia. exact Hu.
 Qed.
 Lemma J_free_chain s c s' : pre s -> free_chain s c = Ok s' -> J s s'.
 Proof.
@@ -443,12 +440,8 @@ Proof.
 Qed.
 Lemma pre_upd_fat1 s v h : pre s -> pre (upd_fat s (updZ (s_fat s) 1 v) h).
 Proof.
-  intros (Hv & Hg & Ht & Hl). split; [exact Hv|]. split; [exact Hg|]. split.
-  - change (max_cluster (upd_fat s (updZ (s_fat s) 1 v) h)) with (max_cluster s). change (s_fat (upd_fat s (updZ (s_fat s) 1 v) h)) with (updZ (s_fat s) 1 v).
-    intros i Hi. assert (1 <= max_cluster s).
-    { destruct Hg as (_ & H2 & _ & _ & _ & _ & _ & _ & _ & H10). unfold max_cluster, count_of_clusters. pose proof (Z.div_pos (total_sectors s - first_data_sector (s_p s)) (BPB_SecPerClus (s_h s))). lia. }
-    rewrite nthZ_updZ_other by lia. apply Ht. exact Hi.
-  - change (lenZ (pack_fat (ft s) (updZ (s_fat s) 1 v) (s_hi s)) <= fat_bytes s). unfold lenZ. rewrite (pack_fat_length (ft s) (updZ (s_fat s) 1 v) (s_fat s) (s_hi s)) by apply updZ_length. exact Hl.
+  intros (Hv & Hg & Hl). split; [exact Hv|]. split; [exact Hg|].
+  change (lenZ (pack_fat (ft s) (updZ (s_fat s) 1 v) (s_hi s)) <= fat_bytes s). unfold lenZ. rewrite (pack_fat_length (ft s) (updZ (s_fat s) 1 v) (s_fat s) (s_hi s)) by apply updZ_length. exact Hl.
 Qed.
 Lemma pre_set_reserved s v : pre s -> pre (upd_hdr s (set_reserved1 (s_h s) v)).
 Proof. intros H. exact H. Qed.
@@ -469,7 +462,7 @@ Proof.
     pose proof (pre_set_reserved sa (r1 (BS_Reserved1 (s_h s))) Hpa) as Hpb. rewrite F2 in Hpb.
     unfold pre, geo, ft, bps, bpc, fat_start, fat_bytes, root_addr, max_cluster, count_of_clusters, total_sectors, bps in *.
     cbn [s_h s_p s_fat s_hi upd_hdr] in Hpb. rewrite A1, A3, A4, <- F1. rewrite F3, F4 in Hpb. exact Hpb.
-  - destruct WL as [WL _]. eexists. split; [exact WL|]. destruct Hp as (Hv & Hg & Ht & Hl).
+  - destruct WL as [WL _]. eexists. split; [exact WL|]. destruct Hp as (Hv & Hg & Hl).
     destruct (regions s Hg) as (R1 & R2 & R3). destruct Hg as (H1 & H2 & H3 & H4 & H5 & H6 & H7 & H8 & H9 & H10).
     assert (Hser : lenZ (ser_hdr (set_reserved1 (s_h s) (r1 (BS_Reserved1 (s_h s))))) <= 510).
     { unfold lenZ. rewrite ser_hdr_length_reserved. fold (lenZ (ser_hdr (s_h s))). rewrite (ser_hdr_length _ Hwf). destruct (is32hdr (s_h s)); lia. }
@@ -504,7 +497,7 @@ Proof.
   pose proof (mark_clean_shape _ _ Hc) as (WL & _). cbv zeta in WL. destruct WL as [WL _].
   eexists. split; [rewrite WL, L2, L1, !app_assoc; reflexivity|].
   assert (Hv2 : vol_end s2 = vol_end s) by congruence.
-  destruct Hp2 as (Hv & Hg & Ht & Hl). destruct (regions s2 Hg) as (R1 & R2 & R3). destruct Hg as (H1 & H2 & H3 & H4 & H5 & H6 & H7 & H8 & H9 & H10).
+  destruct Hp2 as (Hv & Hg & Hl). destruct (regions s2 Hg) as (R1 & R2 & R3). destruct Hg as (H1 & H2 & H3 & H4 & H5 & H6 & H7 & H8 & H9 & H10).
   assert (Hend : 512 <= vol_end s2) by (unfold vol_end in *; nia).
   assert (Hser : lenZ (ser_hdr (set_reserved1 (s_h s2) (Z.land (BS_Reserved1 (s_h s2)) (Z.lnot Gen.FAT_DIRTY_BIT_MASK)))) <= 510).
   { unfold lenZ. rewrite ser_hdr_length_reserved. fold (lenZ (ser_hdr (s_h s2))). rewrite Hwf2, (ser_hdr_length _ Hwf). destruct (is32hdr (s_h s)); lia. }
